@@ -214,3 +214,75 @@ c03h!(c03_route_service, route("org.varlink.service", "org.varlink.service.GetIn
 c03h!(c03_route_unregistered, route("a.b", "a.b.M", stubs::ERR_IFACE_NOT_FOUND));
 c03h!(c03_route_prefix_of_service, route("org.varlink", "org.varlink.service", stubs::ERR_IFACE_NOT_FOUND));
 c03h!(c03_route_empty, route("", ".M", stubs::ERR_IFACE_NOT_FOUND));
+
+// ---- VarlinkService::new: the advertised interface list ----------------------------------
+// (real hashbrown inserts with a constant hash: minutes in CBMC, thorough tier only)
+
+struct Named(&'static str);
+impl Interface for Named {
+    fn get_description(&self) -> &'static str {
+        "d"
+    }
+    fn get_name(&self) -> &'static str {
+        self.0
+    }
+    fn call_upgraded(&self, _c: &mut Call, _b: &mut dyn std::io::BufRead) -> crate::Result<Vec<u8>> {
+        Ok(Vec::new())
+    }
+    fn call(&self, _call: &mut Call) -> crate::Result<()> {
+        Ok(())
+    }
+}
+
+pub fn cheap_finish(_h: &std::hash::DefaultHasher) -> u64 {
+    0
+}
+pub fn cheap_write(_h: &mut std::hash::DefaultHasher, _b: &[u8]) {}
+pub fn cheap_write_str(_h: &mut std::hash::DefaultHasher, _s: &str) {}
+
+fn new_lists(second: &'static str, want: usize) {
+    let v = draw_str(&mut KSrc);
+    let svc = VarlinkService::new(
+        v.to_string(),
+        String::from("p"),
+        String::from("1"),
+        String::from("u"),
+        vec![Box::new(Named("a.b")), Box::new(Named(second))],
+    );
+    let l = &svc.info.interfaces;
+    assert!(l.len() == want, "P:c03.getinfo_lists_every_registered_interface_exactly_once");
+    assert!(tagser::key_eq(l[0].as_ref(), "org.varlink.service"), "P:c03.getinfo_lists_service_interface_first");
+    let mut n_ab = 0;
+    let mut n_2 = 0;
+    let mut i = 1;
+    while i < l.len() {
+        if tagser::key_eq(l[i].as_ref(), "a.b") {
+            n_ab += 1;
+        }
+        if tagser::key_eq(l[i].as_ref(), second) {
+            n_2 += 1;
+        }
+        i += 1;
+    }
+    assert!(n_ab == 1 && n_2 == 1, "P:c03.getinfo_lists_every_registered_interface_exactly_once");
+    let s = &svc.info.vendor;
+    assert!(s.len() == v.len, "P:c03.getinfo_vendor_as_configured");
+    std::mem::forget(svc);
+}
+
+macro_rules! c03new {
+    ($name:ident, $second:expr, $want:expr) => {
+        #[kani::proof]
+        #[kani::unwind(10)]
+        #[kani::stub(alloc::fmt::format, stubs::format)]
+        #[kani::stub(std::hash::RandomState::new, stubs::fixed_random_state)]
+        #[kani::stub(<std::hash::DefaultHasher as std::hash::Hasher>::finish, cheap_finish)]
+        #[kani::stub(<std::hash::DefaultHasher as std::hash::Hasher>::write, cheap_write)]
+        #[kani::stub(<std::hash::DefaultHasher as std::hash::Hasher>::write_str, cheap_write_str)]
+        fn $name() {
+            new_lists($second, $want);
+        }
+    };
+}
+c03new!(c03_new_two_distinct, "a.c", 3);
+c03new!(c03_new_same_name_twice, "a.b", 2);
